@@ -730,7 +730,9 @@ def g_dir(rnd, named_ok=True):
     return (12, g_int(rnd), g_int(rnd), [g_lit(rnd) for _ in range(g_len(rnd, 3))])
 
 
-SYMS = [b'p', b'f', b'+', b'-', b'*', b'<=', b'sum', b'x', b'"s t"', b'', b'~', b'a\x00b', b'.']
+# b'.' is a legal operator symbol but a term ending in '.' makes the text ambiguous with the statement terminator
+# ("&p{} . ." + "." reads like the atom "&p{} . .."): left out of the random stream, one instance is in corpus/C06
+SYMS = [b'p', b'f', b'+', b'-', b'*', b'<=', b'sum', b'x', b'"s t"', b'', b'~', b'a\x00b', b'^']
 
 
 class TheoryGen:
